@@ -141,3 +141,54 @@ Proof.
     + split; auto. split; [nia|]. unfold flat; proj. repeat split; auto; try nia.
   - intros q s' H. inversion H; subst. proj. repeat split; lia.
 Qed.
+
+(* ------------------------------------------------------------------ sequencing of steps *)
+Lemma wf_rem : forall total s, wf total s -> rem s = total - pos (stt s) /\ 0 <= rem s.
+Proof. intros total s (A & B & C & D). lia. Qed.
+
+Lemma step_seq : forall {A B} total s k1 k2 (r : res A) (f : A -> rd -> res B),
+  wf total s -> step_ok total s k1 r ->
+  (forall a s1, r = Ok a s1 -> wf total s1 -> step_ok total s1 k2 (f a s1)) ->
+  step_ok total s (k1 + k2) (match r with Ok a s1 => f a s1 | Err e t => Err e t | Fuel => Fuel end).
+Proof.
+  intros A B total s k1 k2 r f W H1 H2. destruct r as [a s1|e t|]; cbn in H1; auto.
+  destruct H1 as (W1 & B1 & K1 & F1). specialize (H2 a s1 eq_refl W1).
+  destruct (wf_rem _ _ W) as (R0 & _). destruct (wf_rem _ _ W1) as (R1 & _).
+  destruct (f a s1) as [b s2|e t|]; cbn in *; auto.
+  - destruct H2 as (W2 & B2 & K2 & F2). split; auto. split; [congruence|]. split; [lia|].
+    eapply flat_weaken; [eapply flat_trans; eauto|lia].
+  - destruct H2 as (NE & F2 & P2). split; auto. split; auto.
+    eapply flat_weaken; [eapply flat_trans; eauto|lia].
+Qed.
+
+Lemma step_weaken : forall {A} total s k k' (r : res A), step_ok total s k r -> k' <= k -> step_ok total s k' r.
+Proof. intros A total s k k' r H L. destruct r; cbn in *; auto. destruct H as (W & B & K & F). repeat split; auto; lia. Qed.
+
+Lemma step_err : forall {A} total s k e, wf total s -> e <> EOob -> @step_ok A total s k (Err e (stt s)).
+Proof. intros A total s k e W NE. destruct (wf_rem _ _ W). cbn. split; auto. split; [apply flat_refl; lia|]. destruct W as (?&?&?&?). lia. Qed.
+
+(* ------------------------------------------------------------------ leaves *)
+Lemma read_counted_seq_ok : forall total tid hz hm s, wf total s -> step_ok total s 4 (read_counted_seq tid hz hm s).
+Proof.
+  intros total tid hz hm s W. unfold read_counted_seq.
+  destruct (read_u32_ok total s W) as (S1 & V1).
+  replace 4 with (4 + 0) by lia. apply step_seq; auto.
+  intros n s1 E W1. destruct (V1 _ _ E) as (_ & Hn & _).
+  destruct (negb (min_mem tid n s1)).
+  - apply step_err; auto. discriminate.
+  - eapply step_weaken. apply (read_seq_ok total (tid =? 8) n hz hm s1 W1 Hn). lia.
+Qed.
+
+Lemma step_map : forall {A B} total s k (r : res A) (f : A -> rd -> res B),
+  step_ok total s k r ->
+  (forall a s1, r = Ok a s1 -> f a s1 = Err ECtor (stt s1) \/ exists b, f a s1 = Ok b s1) ->
+  step_ok total s k (match r with Ok a s1 => f a s1 | Err e t => Err e t | Fuel => Fuel end).
+Proof.
+  intros A B total s k r f H Hf. destruct r as [a s1|e t|]; cbn in H; auto.
+  destruct H as (W1 & B1 & K1 & F1). destruct (wf_rem _ _ W1) as (R1 & R1').
+  destruct (Hf a s1 eq_refl) as [E|(b & E)]; rewrite E; cbn.
+  - split; [discriminate|]. split.
+    + eapply flat_weaken; eauto. destruct W1 as (?&?&?&?). unfold flat in F1. lia.
+    + destruct W1 as (?&?&?&?). lia.
+  - auto.
+Qed.
